@@ -37,7 +37,7 @@ func init() {
 		},
 		Batches: tiered(16, 256),
 		Run:     runC09,
-		Timeout: timeoutFor(10*time.Minute, 45*time.Minute),
+		Timeout: timeoutFor(3*time.Minute, 45*time.Minute),
 	})
 }
 
